@@ -11,10 +11,13 @@ import (
 	"os"
 	"strconv"
 	"strings"
+
+	"github.com/aml-org/amf-custom-validator/simrt"
 )
 
 type census struct {
 	FailSites []string `json:"fail_sites"`
+	GoStmts   []string `json:"go_stmts"`
 }
 
 type replayFile struct {
@@ -30,6 +33,9 @@ func main() {
 	if len(os.Args) < 2 {
 		fmt.Fprintln(os.Stderr, "usage: simharness ref | batch | c04 ...")
 		os.Exit(2)
+	}
+	if v := os.Getenv("SIM_SPIN"); v != "" {
+		simrt.SpinBeforeSleep, _ = strconv.Atoi(v)
 	}
 	switch os.Args[1] {
 	case "ref":
@@ -69,6 +75,7 @@ func batchMain(args []string) {
 			json.Unmarshal(b, &cen)
 		}
 	}
+	checkForeign = len(cen.GoStmts) > 0 || os.Getenv("SIM_CHECK_FOREIGN") != ""
 	rc := newRefCache(*refdir)
 	w := bufio.NewWriterSize(os.Stdout, 1<<20)
 	defer w.Flush()
@@ -136,7 +143,3 @@ func batchMain(args []string) {
 	fmt.Fprintf(w, "{\"batch_done\":true,\"ref_procs\":%d,\"ref_hits\":%d}\n", rc.Procs, rc.Hits)
 }
 
-func c04Main(args []string) {
-	fmt.Fprintln(os.Stderr, "c04: not built yet")
-	os.Exit(2)
-}
